@@ -136,6 +136,12 @@ func RunC09(tier string) int {
 		j := jobs[i]
 		w := j.sc.world()
 		w.Pkgs = append(w.Pkgs, WPkg{Addr: P7, Locs: []string{"", "s p"}, MetaID: "7777777777777777777777777777777777777777", MetaMsg: "multi\nline \"message\" é"})
+		// the fetcher of P2 answers with a non-nil but EMPTY metadata object
+		for k := range w.Pkgs {
+			if w.Pkgs[k].Addr == P2 {
+				w.Pkgs[k].NilMeta, w.Pkgs[k].MetaID, w.Pkgs[k].MetaMsg = false, "", ""
+			}
+		}
 		for k := range w.Pkgs {
 			w.Pkgs[k].Files = append(append([]TNode{}, w.Pkgs[k].Files...), devs[j.dev]...)
 		}
